@@ -91,6 +91,32 @@ func profileByName(name string) Profile {
 		p.Keys = []string{"bc", "c", "b", "a", "ab", "abc", "k"}
 		p.Txs = 16
 		p.Reopen = 20
+	case "framedense":
+		// two buckets, two keys, two members: the same key names live in both buckets for every structure, so a call
+		// that looks at the wrong bucket finds something there (C04)
+		p.WKV, p.WList, p.WSet, p.WZSet = 1, 1, 8, 1
+		p.Buckets = []string{"a", "ab"}
+		p.Keys = []string{"b", "k"}
+		p.Members = []string{"m", "n"}
+		p.NoSPop = true
+		p.Txs = 26
+		p.Reopen = 12
+		p.Oversize, p.DoneCalls = 0, 0
+	case "crczero":
+		// half of the write transactions end with a key/value record whose CRC-32 is forged to be 0 (sometimes 1):
+		// a checksum is just a number, recovery must not read a meaning into its value
+		p.WKV, p.WList, p.WSet, p.WZSet = 5, 1, 1, 1
+		p.Reopen = 50
+		p.Txs = 14
+		p.CrcZero = 50
+	case "manyseg":
+		// more than ten (and more than twenty) segments: file ids with one and two digits, reopened often
+		p.WKV, p.WList, p.WSet, p.WZSet = 3, 2, 2, 2
+		p.Reopen = 12
+		p.Txs = 45
+		p.OpsMin, p.OpsMax = 2, 5
+		p.Segs = []int{150, 200}
+		p.Oversize, p.DoneCalls = 0, 0
 	case "reopen":
 		p.WKV, p.WList, p.WSet, p.WZSet = 3, 2, 2, 2
 		p.Reopen = 50
@@ -137,11 +163,42 @@ func profileByName(name string) Profile {
 		p.WKV = 1
 		p.Modes = []int{2}
 		p.Buckets = []string{"bk"}
+		p.BucketChoice = []string{"bk", "data", "cache", "t", "a.m", "bk"} // one per history; names ending in letters of ".meta" too
 		p.Keys = []string{"a", "ab", "abc", "abd", "b", "ba", "k1", "k2", "z", "k10", "k3", "m"}
 		p.Segs = []int{150, 200, 250, 350}
 		p.Txs = 20
 		p.Reopen = 15
 		p.Oversize, p.DoneCalls = 0, 0
+		p.SparseReads = true
+	case "sparsepfx":
+		// sparse mode, two key/value buckets whose names are prefixes of each other, keys chosen so that no bucket+key
+		// concatenation of one bucket equals one of the other; sealed segments with multi-level on-disk trees (C04)
+		p.WKV = 1
+		p.Modes = []int{2}
+		p.Buckets = []string{"b", "ba"}
+		p.Keys = nil
+		for i := 0; i < 12; i++ {
+			p.Keys = append(p.Keys, fmt.Sprintf("x%02d", (i*5)%12), fmt.Sprintf("c%02d", (i*7)%12))
+		}
+		p.Segs = []int{600, 1000}
+		p.Txs, p.OpsMin, p.OpsMax = 30, 2, 4
+		p.Reopen = 8
+		p.Oversize, p.DoneCalls, p.ReadOnly, p.Abort = 0, 0, 15, 5
+		p.GetOnly = true // scans and GetAll across such buckets are known finding F18
+	case "sparsebig":
+		// sparse mode, transactions of 6-14 records over segments of 150-250 bytes: a transaction spans several
+		// segments, some segments hold no commit record at all, others only the tail of a transaction
+		p.WKV = 1
+		p.Modes = []int{2}
+		p.Buckets = []string{"bk"}
+		p.Keys = nil
+		for i := 0; i < 16; i++ {
+			p.Keys = append(p.Keys, fmt.Sprintf("k%02d", (i*7)%16))
+		}
+		p.Segs = []int{150, 200, 250}
+		p.Txs, p.OpsMin, p.OpsMax = 9, 6, 14
+		p.Reopen = 20
+		p.Oversize, p.DoneCalls, p.ReadOnly, p.Abort = 0, 0, 30, 5
 		p.SparseReads = true
 	case "sparse2":
 		// many small transactions per segment: the on-disk transaction-id tree and the
@@ -158,6 +215,31 @@ func profileByName(name string) Profile {
 		p.Reopen = 8
 		p.Oversize, p.DoneCalls, p.ReadOnly, p.Abort = 0, 0, 10, 5
 		p.SparseReads = true
+	case "sparsepage":
+		// sparse mode, one bucket, scans with every small offset / limit over keys spread across sealed segments (C03)
+		p.WKV = 1
+		p.Modes = []int{2}
+		p.Buckets = []string{"bk"}
+		p.Keys = []string{"k0", "k1", "k2", "k3", "k4", "k5", "k6", "k", "j", "l", "k10"}
+		p.Segs = []int{150, 200, 250, 350}
+		p.Txs = 18
+		p.Reopen = 10
+		p.Oversize, p.DoneCalls = 0, 0
+		p.ScanHeavy = true
+	case "scanmerge":
+		// RAM index modes, one bucket, one prefix: deletes, re-puts and expiring puts with Merge in the same
+		// process lifetime, then scans with every small offset / limit (C03: the B+ tree's bookkeeping after Merge)
+		p.WKV = 1
+		p.Modes = []int{0, 1}
+		p.Buckets = []string{"bk"}
+		p.Keys = []string{"k0", "k1", "k2", "k3", "k4", "k5", "k6", "k", "j", "l", "k10"}
+		p.Segs = []int{150, 200, 250}
+		p.Txs = 22
+		p.Merge = 25
+		p.ScanMaxOff = 12
+		p.Reopen = 4
+		p.Oversize, p.DoneCalls = 0, 0
+		p.ScanHeavy = true
 	case "sparsemb":
 		// sparse mode, several buckets whose names have equal length (bucket+key concatenations are unambiguous)
 		p.WKV = 1
@@ -210,7 +292,10 @@ func suiteHist(seed uint64, n int, work, prof string) {
 		suitePages(seed, n, work)
 		return
 	case "fault":
-		suiteFault(seed, n, work)
+		suiteFault(seed, n, work, "mixed")
+		return
+	case "faultset":
+		suiteFault(seed, n, work, "set")
 		return
 	case "opts":
 		suiteOpts(seed, n, work)
@@ -263,9 +348,13 @@ func suiteHist(seed uint64, n int, work, prof string) {
 		r := root.Fork()
 		seg := p.Segs[r.Intn(len(p.Segs))]
 		open := optLine(p.Modes[r.Intn(len(p.Modes))], p.RW[r.Intn(len(p.RW))], p.Load[r.Intn(len(p.Load))], p.Sync[r.Intn(len(p.Sync))], seg)
-		body := genHistory(r, p, seg)
+		pi := p
+		if len(p.BucketChoice) > 0 {
+			pi.Buckets = []string{p.BucketChoice[r.Intn(len(p.BucketChoice))]}
+		}
+		body := genHistory(r, pi, seg)
 		emit("#H %d %s", i, open)
-		runHistory(st, p, open, body)
+		runHistory(st, pi, open, body)
 	}
 	st.reset()
 	os.RemoveAll(st.dir)
@@ -282,6 +371,9 @@ func suitePages(seed uint64, n int, work string) {
 	for i := 0; i < n; i++ {
 		r := root.Fork()
 		open := optLine(r.Intn(2), r.Intn(2), r.Intn(2), r.Intn(2), []int{200, 400, 2000}[r.Intn(3)])
+		if i%2 == 1 {
+			open = optLine(r.Intn(2), r.Intn(2), r.Intn(2), r.Intn(2), []int{150, 200}[r.Intn(2)]) // several data files: Merge has work to do
+		}
 		emit("#H %d %s", i, open)
 		st.run("reset")
 		st.run(open)
@@ -307,6 +399,20 @@ func suitePages(seed uint64, n int, work string) {
 			}
 		}
 		st.run("commit")
+		if i%2 == 1 {
+			// every other case: Merge in the same process lifetime, then deleted / expired / absent keys are put (again)
+			// and live ones deleted, so that whatever the index counted before the Merge is out of date
+			st.run("merge")
+			st.run("begin w ?")
+			for _, k := range keys {
+				if r.Chance(1, 2) {
+					st.run(fmt.Sprintf("put %s %s %s 0 1700000000", hb, hx([]byte(k)), hx([]byte("re"+k))))
+				} else if r.Chance(1, 5) {
+					st.run(fmt.Sprintf("del %s %s", hb, hx([]byte(k))))
+				}
+			}
+			st.run("commit")
+		}
 		st.run("begin r ?")
 		nk := len(keys)
 		for _, p := range []string{"", "k", "k1", "l", "z"} {
@@ -332,7 +438,7 @@ func suitePages(seed uint64, n int, work string) {
 }
 
 // suiteFault: I/O errors injected into Commit (C12).
-func suiteFault(seed uint64, n int, work string) {
+func suiteFault(seed uint64, n int, work string, prof string) {
 	a := NewSt(work + "/a")
 	b := NewSt(work + "/b")
 	b.quiet = true
@@ -341,7 +447,7 @@ func suiteFault(seed uint64, n int, work string) {
 	cur := a
 	nutsdb.VerifObserver = func(op, path string, off int64, d []byte) error { return cur.observer(op, path, off, d) }
 	root := NewPRNG(seed)
-	p := profileByName("mixed")
+	p := profileByName(prof)
 	p.Abort, p.Oversize, p.ReadOnly, p.DoneCalls, p.Reopen, p.Txs = 0, 0, 0, 0, 0, 4
 	p.NoSPop = true
 	both := func(c string) string {
@@ -437,10 +543,17 @@ func suiteFault(seed uint64, n int, work string) {
 		cur = a
 		// every other time: a later transaction commits into the same segment before the reopen;
 		// it must survive, and the failed one must stay invisible
-		follow := fired && kind != "sync" && r.Intn(2) == 0
+		fk := r.Intn(3)
+		follow := fired && kind != "sync" && fk != 0
 		if follow {
 			a.run("begin w ?")
-			a.run(fmt.Sprintf("put %s %s %s 0 1700000000", hx([]byte(p.Buckets[0])), hx([]byte("zzfollow")), hx([]byte(fmt.Sprintf("f%d", i)))))
+			fv := fmt.Sprintf("f%d", i)
+			if fk == 2 {
+				// a record as large as a whole segment: Commit must rotate, which seals the segment with whatever the
+				// failed write left at its tail
+				fv = strings.Repeat("\x02", seg-42-len(p.Buckets[0])-len("zzfollow"))
+			}
+			a.run(fmt.Sprintf("put %s %s %s 0 1700000000", hx([]byte(p.Buckets[0])), hx([]byte("zzfollow")), hx([]byte(fv))))
 			if a.run("commit") != "ok" {
 				emit("#SPEC a small transaction after a failed Commit (%s error, partial=%d) does not commit", kind, part)
 			}
@@ -457,7 +570,7 @@ func suiteFault(seed uint64, n int, work string) {
 		}
 		o2 := obsOf(a)
 		if fired && kind != "sync" && !eq(o2, o0) {
-			emit("#SPEC failed Commit (%s error, partial=%d, later commit=%v) changed reads after reopen", kind, part, follow)
+			emit("#SPEC failed Commit (%s error, partial=%d, later commit=%v) changed reads after reopen: %s", kind, part, follow, firstDiff(o2, o0, obsCalls(p)))
 		}
 		if fired && kind == "sync" && !eq(o2, o0) && !eq(o2, ob) {
 			emit("#SPEC after a sync error in Commit the transaction is partially visible after reopen")
